@@ -273,8 +273,11 @@ def check_hash(ctx, w):
         if isinstance(st, ast.Assign):
             ad.setdefault(U(st.targets[0]), []).append(expr.nfs(st.value, env))
     ctx.ob('E-i', f.construct, 'max bucket', ad.get('max_idx') == ['max(buckets)'], got=ad.get('max_idx'))
-    ctx.ob('E-i', f.construct, 'chain position of max bucket', ad.get('max_chain_pos') == [expr.spec_nf('_chain_pos + (max_idx - symoffset) * _wordsize')],
-           got=ad.get('max_chain_pos'))
+    # the stream is positioned at the chain word of the highest bucket before the walk (the position may or may not have a name)
+    ienv = expr.FEnv(f.node)
+    seeks = [o.t() for o in streams.func_ops(f.node, ienv) if o.kind == 'seek']
+    want_pos = expr.spec_nf('_chain_pos + (max_idx - symoffset) * _wordsize')
+    ctx.ob('E-i', f.construct, 'chain position of max bucket', len(seeks) == 1 and seeks[0][2] == want_pos, got=seeks, expected=want_pos)
     rp = paths.returns_with_conds(f.node)
     rets = sorted(set(expr.nfs(r, env) for _, r, _ in rp))
     ctx.ob('E-i', f.construct, 'returns symoffset or last index + 1', rets == sorted([expr.spec_nf('max_idx + 1'), 'symoffset']), got=rets,
